@@ -785,12 +785,28 @@ where
             let pt = 2000 + which;
             let before = if which % 16 == 15 { eval_all_modes::<K>(&c, pt) } else { String::new() };
             c.compile();
-            return format!(
+            let head = format!(
                 "recompiled:{}|before={before}|after={}|again={}",
                 inspect_generic::<K::T, _>(&c, false),
                 eval_all_modes::<K>(&c, pt),
                 eval_all_modes::<K>(&c, pt + 1)
             );
+            // ... and the compiled copy goes on to be converted, differentiated or extended, the way
+            // `Calculate`/`Differentiate` consume `self`; none of this may reach the original
+            let nv = c.var_names().len();
+            let tail = match (which / 16) % 4 {
+                0 => match c.to_deepex() {
+                    Ok(d) => {
+                        let a = format!("deep:{}|{}", d.unparse(), show_res(d.eval(&points::<K::T>(nv, pt))));
+                        format!("{a}|{}", obs_expr::<K::T, _>(Fx::<K>::from_deepex(d), pt))
+                    }
+                    Err(e) => format!("err:{}", e.msg()),
+                },
+                1 => obs_expr::<K::T, _>(c.partial(0), pt),
+                2 => obs_expr::<K::T, _>(c.operate_unary(K::UNARY[0]), pt),
+                _ => String::new(),
+            };
+            return format!("{head}|then={tail}");
         }
         derive_generic::<K, _>(&self.ex, which)
     }
